@@ -13,3 +13,9 @@ Print Assumptions C11_Udf.
 Theorem C11_Svc cfg instr imm32 s : cond_holds s -> have_virt cfg = 0 -> mode_of s <> 26 -> Svc_execute cfg instr imm32 s = Exc ESVC s.
 Proof. exact (Svc_ok cfg instr imm32 s). Qed.
 Print Assumptions C11_Svc.
+Theorem C11_Bkpt instr : Bkpt_execute instr = Err ENotImpl.
+Proof. exact (Bkpt_ok instr). Qed.
+Print Assumptions C11_Bkpt.
+Theorem C11_Smc_undefined cfg instr s : cond_holds s -> cfg_have_security_ext cfg = 0 \/ mode_of s = 16 -> Smc_execute cfg instr s = Exc EUndefined s.
+Proof. exact (Smc_undefined cfg instr s). Qed.
+Print Assumptions C11_Smc_undefined.
